@@ -2418,3 +2418,11 @@ mod tests {
             .finalize()
     }
 }
+
+#[cfg(all(kani, fuellabs_fuel_vm_verif))]
+mod verif {
+    include!(concat!(
+        env!("FUELLABS_FUEL_VM_VERIF_DIR"),
+        "/incrate/vm_checked.rs"
+    ));
+}
